@@ -89,7 +89,8 @@ def cases(draw: Any, tier: str) -> dict:
     ops.append({"op": "observe"})
     case: dict[str, Any] = {"backend": draw(BACKEND), "sched_seed": draw(SEED), "kind": d.pick(["root", "nested"]), "handler": handler,
                             "pre_res": d.int(0, 2), "via": d.pick(["module", "method"]), "ops": ops, "fatal": None,
-                            "after_exit": [d.pick(["soon", "start"]) for _ in range(d.weighted([(0, 50), (1, 35), (2, 15)]))]}
+                            "after_exit": [d.pick(["soon", "start"]) for _ in range(d.weighted([(0, 50), (1, 35), (2, 15)]))],
+                            "start_from_child": d.pct(25)}
     if handler != "truthy" and d.pct(25):
         case["fatal"] = {"d": d.int(1, 3), "via": d.pick(["start", "soon"])}
     return case
@@ -348,6 +349,14 @@ class Interp:
                 F.add_resource(Res("pre"), f"pre{k}")
             if case["via"] == "module":
                 self.factory = await start_background_task_factory(**kwargs)
+            elif case.get("start_from_child"):
+                # the method is called on F while a nested context (with other resources) is current
+                async with Context() as inner:
+                    self.child_ctx = inner
+                    inner.add_resource(Res("child"), "child_start")
+                    self.factory = await F.start_background_task_factory(**kwargs)
+                self.foreign_spawn = True
+                self.labels.add("factory-started-from-other-context")
             else:
                 self.factory = await F.start_background_task_factory(**kwargs)
             self.check_handles("right after start")
